@@ -19,8 +19,8 @@ let eval (input : Sx.t) (obs : Sx.t) : Sx.t list * bool * bool * string =
   let head = (ocaml_string_of_str m = "HEAD") in
   let hdrs = Sx.L [Sx.A "hdrs"; arg "expires"; arg "cache"; arg "etag"] in
   let show r = (match r with
-    | SPass -> Sx.L [Sx.A "pass"]
-    | SRedirect loc -> Sx.L [Sx.A "redirect"; sx_str loc]
+    | SPass -> Sx.L [Sx.A "pass"; sx_bool false]
+    | SRedirect loc -> Sx.L [Sx.A "redirect"; sx_str loc; sx_bool false]
     | SServe (id, _) -> Sx.L [Sx.A "serve"; sx_int (int_of_nat id); hdrs]
     | SNotModified _ -> Sx.L [Sx.A "notmodified"]) in
   ignore head;
@@ -36,10 +36,18 @@ let eval (input : Sx.t) (obs : Sx.t) : Sx.t list * bool * bool * string =
   let pre = o.so_prefix in
   let boundary = pre = [] || (has_prefix pre p && (match List.filteri (fun i _ -> i >= List.length pre) p with [] -> true | c :: _ -> int_of_n c = 47)) in
   let spec = List.for_all (fun ob -> match Sx.tag ob, Sx.args ob with
-    | "pass", _ -> true
+    | "pass", [hd] -> not (bool_of hd)                 (* silent: not even a response header *)
     | "serve", id :: _ -> List.mem (Sx.int_of id) inside_ids && (ms = "GET" || ms = "HEAD") && boundary
     | "notmodified", _ -> (ms = "GET" || ms = "HEAD") && boundary
-    | "redirect", [loc] -> (ms = "GET" || ms = "HEAD") && boundary && (match List.rev (str loc) with c :: _ -> int_of_n c = 47 | [] -> false)
+    | "redirect", [loc; leak] ->
+        (* the slash-terminated form of the directory: a rooted, clean path (no "//" that a browser reads
+           as another host, no ".." component), and nothing of a file in the redirect itself *)
+        let l = str loc in
+        let comps = Router.split_slash [] l in
+        (ms = "GET" || ms = "HEAD") && boundary && not (bool_of leak)
+        && (match List.rev l with c :: _ -> int_of_n c = 47 | [] -> false)
+        && (match l with a :: b :: _ -> int_of_n a = 47 && int_of_n b <> 47 | [a] -> int_of_n a = 47 | [] -> false)
+        && not (List.exists (fun c -> c = str_of_hex "x2e2e") comps)
     | _ -> false) (Sx.args obs) in
   let cls = (match r1 with SPass -> "pass" | SRedirect _ -> "redirect" | SServe _ -> "serve" | SNotModified _ -> "notmodified") in
   let traversal = List.exists (fun c -> c = str_of_hex "x2e2e") (Router.split_slash [] p) in
